@@ -567,3 +567,27 @@ func (ev *sqlEval) eval(n *sqNode) bool {
 	ev.bad = true
 	return false
 }
+
+// sqlTreeEqual: the two SQL trees are the same predicate up to number formatting.
+func sqlTreeEqual(a, b *sqNode) bool {
+	if a == nil || b == nil {
+		return a == nil && b == nil
+	}
+	if a.kind != b.kind || a.op != b.op || len(a.list) != len(b.list) {
+		return false
+	}
+	res := true
+	switch a.kind {
+	case qCol, qStr:
+		res = a.text == b.text
+	case qNum:
+		res = normDec(a.text) == normDec(b.text)
+	case qParam:
+		res = a.pidx == b.pidx
+	}
+	res = rtAnd(res, rtAnd(sqlTreeEqual(a.a, b.a), rtAnd(sqlTreeEqual(a.b, b.b), sqlTreeEqual(a.c, b.c))))
+	for i := range a.list {
+		res = rtAnd(res, sqlTreeEqual(a.list[i], b.list[i]))
+	}
+	return res
+}
